@@ -145,6 +145,7 @@ func (s *sim) guard(what string, f func()) bool {
 
 func (s *sim) start() {
 	r := s.r
+	preparePool()
 	s.t0 = time.Now()
 	s.lastDrain = s.t0
 	s.cur = -1
@@ -1234,6 +1235,13 @@ func run(r *core.Run, m mode) {
 			s.script()
 		}
 		s.shutdown()
+		ringbuf.SimYield = nil
+		synctest.Wait()
+		if lost := auditPool(!r.Failed() && s.srvDone.Load() && s.tun.alive() == 0); lost > 0 {
+			// frame buffers that the receiving gateway never returned to its pool (it does not
+			// release what a stopped worker still holds); the next run gets a fresh pool
+			r.Probes["rx-frame-buffers-not-returned"] += lost
+		}
 		for _, k := range []string{"too_old", "duplicate", "evicted", "invalid"} {
 			if n := s.cnt.get("discard:" + k); n > 0 {
 				r.Probes["rx-discard-"+k] += n
